@@ -47,7 +47,8 @@ def make_element(cell, xgrid=None):
     name = f"{cell['kind']}_{cell['flav']}"
     xg = xgrid or cards.make_grid(4, 4, x_min=cell.get("xmin", 1e-2))
     ob = cards.obs({name: [dict(x=cell["x"], Q2=cell["Q2"])]}, xgrid=xg, deg=3, prDIS=cell["proc"],
-                   ProjectileDIS="neutrino" if cell["proc"] == "CC" else "electron", PolarizationDIS=0.3 if cell["proc"] == "NC" else 0.0)
+                   ProjectileDIS="neutrino" if cell["proc"] == "CC" else "electron", PolarizationDIS=0.3 if cell["proc"] == "NC" else 0.0,
+                   TargetDIS=cell.get("target") or "proton")
     r = yr.Runner(th, ob)
     return r, r.observables[name].elements[0]
 
